@@ -83,7 +83,8 @@ def gen_case(rng, i, tier):
     rng.shuffle(dims)
     sizes = {d: (sizes_all[d] if d in sizes_all else extra[d]) for d in dims}
     desc.update({"op": op, "opax": opax, "to": to, "dims": dims,
-                 "call": {"boundary": rng.choice(gen.RULES), "fill_value": rng.choice(FILLS)}})
+                 "call": {"boundary": rng.choice(gen.RULES), "fill_value": rng.choice(FILLS)},
+                 "keep_coords": rng.choice([None, None, True, False])})
     chunks = rand_chunks(rng, sizes)
     if op == "ufunc":
         a = opax[0]
@@ -132,7 +133,8 @@ def setup_simple(desc):
     core_dims = [cm[a][desc["pos"][a]] for a in opax]
     involved = {p for a in opax for p in (desc["pos"][a], to[a])}
     if op in ("diff", "interp", "min", "max", "cumsum"):
-        fn = lambda x: getattr(g, op)(x, axarg, to=to, **call)  # noqa: E731
+        kc = {} if desc.get("keep_coords") is None else {"keep_coords": desc["keep_coords"]}
+        fn = lambda x: getattr(g, op)(x, axarg, to=to, **call, **kc)  # noqa: E731
     elif op == "derivative":
         fn = lambda x: g.derivative(x, opax[0], to=to[opax[0]], **call)  # noqa: E731
     elif op == "integrate":
